@@ -598,7 +598,8 @@ def type_ir_tokens_fn(ctx, rid):
     return q.anchor_fn(ctx, rid, "impl ToTokensWithSettings for TypeIR", fns)
 
 
-CA = "Option::filter(CompositeFieldIR::compact_attr(%s),|1|{%s})"
+def CA(x, fl):
+    return "then((let v1::Some($)=CompositeFieldIR::compact_attr(%s)&&%s),CompositeFieldIR::compact_attr(%s)@v1::Some.0)" % (x, fl, x)
 
 
 def item_templates(ctx, rid):
@@ -659,9 +660,9 @@ def field_templates(ctx, rid, strict_alloc=True):
     exp_s = q.mk_match("P0.kind", [
         ("CompositeIRKind::NoFields", "if(let v1::Some($)=%s){T[( pub #0 )](%s@v1::Some.0)}else{T[]()}" % (PH, PH)),
         ("CompositeIRKind::Named($)", "T[{ #( #0 , )* #1 }](Iterator::map(P0.kind@CompositeIRKind::Named.0,|1|{T[#0 pub #1 : #2](%s,C1_0.0,ToTokensWithSettings::to_token_stream(C1_0.1,%s))}),"
-                                      "Option::map(%s,|1|{T[#0 pub __ignore : #1](%s,C1_0)}))" % (CA % ("C1_0.1", FL), ST, PH, SKIP)),
+                                      "Option::map(%s,|1|{T[#0 pub __ignore : #1](%s,C1_0)}))" % (CA("C1_0.1", FL), ST, PH, SKIP)),
         ("CompositeIRKind::Unnamed($)", "T[( #( #0 , )* #1 )](Iterator::map(P0.kind@CompositeIRKind::Unnamed.0,|1|{T[#0 pub #1](%s,ToTokensWithSettings::to_token_stream(C1_0,%s))}),"
-                                        "Option::map(%s,|1|{T[#0 pub #1](%s,C1_0)}))" % (CA % ("C1_0", FL), ST, PH, SKIP))])
+                                        "Option::map(%s,|1|{T[#0 pub #1](%s,C1_0)}))" % (CA("C1_0", FL), ST, PH, SKIP))])
     expect_term(ctx, rid, "fields/struct", sf["sp"], Ns.term(sf["body"]), exp_s,
                 "unit: `(pub #marker)` iff marker; named: `{ #(#[codec(compact)]? pub name: ty,)* #[codec(skip)]? pub __ignore: marker }`; tuple likewise; "
                 "compact attribute iff is_compact && flag; fields in IR order")
@@ -670,8 +671,8 @@ def field_templates(ctx, rid, strict_alloc=True):
     FL2, ST2 = "P%d" % j_fl, "P%d" % j_st
     exp_e = q.mk_match("P0.kind", [
         ("CompositeIRKind::NoFields", "T[]()"),
-        ("CompositeIRKind::Named($)", "T[{ #( #0 , )* }](Iterator::map(P0.kind@CompositeIRKind::Named.0,|1|{T[#0 #1 : #2](%s,C1_0.0,ToTokensWithSettings::to_token_stream(C1_0.1,%s))}))" % (CA % ("C1_0.1", FL2), ST2)),
-        ("CompositeIRKind::Unnamed($)", "T[( #( #0 , )* )](Iterator::map(P0.kind@CompositeIRKind::Unnamed.0,|1|{T[#0 #1](%s,ToTokensWithSettings::to_token_stream(C1_0,%s))}))" % (CA % ("C1_0", FL2), ST2))])
+        ("CompositeIRKind::Named($)", "T[{ #( #0 , )* }](Iterator::map(P0.kind@CompositeIRKind::Named.0,|1|{T[#0 #1 : #2](%s,C1_0.0,ToTokensWithSettings::to_token_stream(C1_0.1,%s))}))" % (CA("C1_0.1", FL2), ST2)),
+        ("CompositeIRKind::Unnamed($)", "T[( #( #0 , )* )](Iterator::map(P0.kind@CompositeIRKind::Unnamed.0,|1|{T[#0 #1](%s,ToTokensWithSettings::to_token_stream(C1_0,%s))}))" % (CA("C1_0", FL2), ST2))])
     expect_term(ctx, rid, "fields/enum", ef["sp"], Ne.term(ef["body"]), exp_e,
                 "variant fields: same slots as the struct emitter without `pub` and without marker (sibling agreement)")
     ca = q.fn1(ctx.P, "CompositeFieldIR::compact_attr", "scale_typegen")
